@@ -24,6 +24,7 @@ fn main() {
     if resolve {
         // second pass: evaluate the external calls the model left in its output (codec runs for C10)
         if id == "C10" { corr::c10::resolve(&out); }
+        if ["C01", "C02", "C03", "C04", "C11"].contains(&id.as_str()) { corr::pkt::resolve(&out); }
         return;
     }
     if std::env::var("CORR_SHOW_PANICS").is_err() { silence_panics(); }
@@ -43,6 +44,7 @@ fn main() {
         "C18" => corr::c18::run(&mut ctx),
         "C19" => corr::c19::run(&mut ctx),
         "C20" => corr::c20::run(&mut ctx),
+        "C01" => corr::c01::run(&mut ctx),
         "C05" | "C06" | "C07" | "C09" => { let id2 = id.clone(); corr::conn::run(&mut ctx, &id2) },
         other => { eprintln!("unknown property {}", other); std::process::exit(2); },
     }
